@@ -30,6 +30,7 @@ How to validate (you must do all of this yourself for each change, one change at
        cd {wt} && PYTHONPATH={wt} /venv/bin/python -m pytest -q -p no:cacheprovider --timeout=900 --continue-on-collection-errors -x -q test/<relevant dirs> rdflib/<relevant file> 
        cd {wt} && PYTHONPATH={wt} /venv/bin/python -m pytest -q -p no:cacheprovider --timeout=900 --continue-on-collection-errors -q 2>&1 | grep -E '^(FAILED|ERROR)' | sed 's/ - .*//' | sort > /tmp/fails-{pid}-k.txt
      The whole suite takes about 3 minutes. The sandbox has no network, so about 24-28 tests fail even on the unchanged tree (test_service*, jsonld test_onedotone tc034/te126/te127/tso05/tso08/tso09/tso11, infixowl, test_plugins, rdflib/__init__.py doctest, test_guess_format_for_parse_http_text_plain; a few others are flaky). The list of failures on the unchanged tree is in /tmp/baseline_failures.txt. Your change must not add any NEW failing test compared with that list (doctests in rdflib/*.py are part of the suite). If it does, choose a different change.
+  (Create {wt}/seeded/conftest.py containing `collect_ignore_glob = ["*"]` first, so that pytest's doctest collection does not import your demo files.)
   3. leave the worktree clean at the end (`git -C {wt} checkout -- rdflib`), keeping only the untracked seeded/ directory.
 
 Do not run more than one full-suite run at a time. Do not commit anything. When finished, reply with a short report: for each change, the one-line summary, what it needs to manifest, and the confirmation that demo fails/passes and that the suite shows no new failures (list any differences from the baseline list).""")
